@@ -132,7 +132,7 @@ def tasks(tier, seed):
         for NP, NMAX in [(1, 12), (2, 12), (3, 12), (4, 12), (5, 12), (6, 12), (7, 12), (8, 12)]:
             T.append(('L1', NP, NMAX))
         T.append(('witness',))
-        for NP, N, cap in [(1, 1, 1200), (1, 2, 600), (1, 3, 900), (2, 2, 600), (2, 3, 900), (2, 1, 1200)]:
+        for NP, N, cap in [(1, 1, 1200), (1, 2, 300), (1, 3, 900), (2, 2, 300), (2, 3, 900), (2, 1, 1200)]:
             T.append(('L2', NP, N, cap))
     return T
 
@@ -412,6 +412,30 @@ class F:
         return self.v
 
 
+def cvc5_decide(smt2, cap_s):
+    """check-sat of an SMT-LIB2 script with the cvc5 python API under a time limit; returns 'sat' / 'unsat' / 'unknown'"""
+    try:
+        import cvc5
+
+        tm = cvc5.TermManager() if hasattr(cvc5, 'TermManager') else None
+        sl = cvc5.Solver(tm) if tm else cvc5.Solver()
+        sl.setOption('fp-exp', 'true')
+        sl.setOption('tlimit', str(int(cap_s * 1000)))
+        ip = cvc5.InputParser(sl)
+        ip.setStringInput(cvc5.InputLanguage.SMT_LIB_2_6, smt2, 'l2')
+        sm = ip.getSymbolManager()
+        out = ''
+        while True:
+            cmd = ip.nextCommand()
+            if cmd.isNull():
+                break
+            out += str(cmd.invoke(sl, sm))
+        out = out.strip().split('\n')[-1] if out.strip() else 'unknown'
+        return out if out in ('sat', 'unsat') else 'unknown'
+    except Exception as e:
+        return 'unknown'
+
+
 def fpval(m, v):
     x = m.eval(v, model_completion=True)
     b = (int(str(x.sign_as_bv())) << 63) | (x.exponent_as_long(True) << 52) | x.significand_as_long()
@@ -455,7 +479,14 @@ def l2_case(rep, NP, N, cap_s):
     s.add(c.pc)
     s.add(z3.fpGEQ(q, z3.fpToFP(RNE, Tend.t, Q)))
     r = core.check(s, 'qf_fp', name + ':extra-step')
-    rep.extra.setdefault('L2', []).append({'case': name, 'path_atoms': len(c.pc), 'result': r, 'cap_s': cap_s})
+    backend = 'z3'
+    if r == 'unknown':
+        # second back end: cvc5 (decides the N = 2 instances that z3 leaves open; only its 'unsat' is used, a 'sat' without a replayed model stays inconclusive)
+        r2 = cvc5_decide('(set-logic QF_FP)\n' + s.to_smt2(), cap_s)
+        rep.qs.note('qf_fp-cvc5', r2, 0.0, name + ':extra-step')
+        if r2 == 'unsat':
+            r, backend = 'unsat', 'cvc5'
+    rep.extra.setdefault('L2', []).append({'case': name, 'path_atoms': len(c.pc), 'result': r, 'cap_s': cap_s, 'decided_by': backend})
     if r == 'sat':
         m = s.model()
         vals = {'t0': fpval(m, t0.t), 'dt': fpval(m, dt.t), 'Tend': fpval(m, Tend.t)}
